@@ -460,6 +460,8 @@ def c02(run):
     from rules import r_sizefill
     r_sizefill.run(run, P)
     r_sizefill.run_separator(run, P)
+    from rules import r_allocnull
+    r_allocnull.run_nullret(run, P)
     from rules import r_pairargs
     r_pairargs.run(run, P)
     run.min_instances('R-RANGE', 12)
